@@ -860,7 +860,24 @@ impl<'a> TypeEncoder<'a> {
                 }
                 state.current.instance_ids.insert(id, import_index);
             }
-            _ => panic!("expected only types, functions, and instance types"),
+            ItemKind::Component(_) => {
+                state
+                    .current
+                    .encodable
+                    .import_type(name, ComponentTypeRef::Component(index));
+            }
+            ItemKind::Module(_) => {
+                state
+                    .current
+                    .encodable
+                    .import_type(name, ComponentTypeRef::Module(index));
+            }
+            ItemKind::Value(_) => {
+                state
+                    .current
+                    .encodable
+                    .import_type(name, ComponentTypeRef::Value(ComponentValType::Type(index)));
+            }
         }
     }
 
@@ -966,7 +983,9 @@ impl<'a> TypeEncoder<'a> {
                 ItemKind::Type(_) => ComponentTypeRef::Type(TypeBounds::Eq(index)),
                 ItemKind::Func(_) => ComponentTypeRef::Func(index),
                 ItemKind::Instance(_) => ComponentTypeRef::Instance(index),
-                _ => panic!("expected only types, functions, and instance types"),
+                ItemKind::Component(_) => ComponentTypeRef::Component(index),
+                ItemKind::Module(_) => ComponentTypeRef::Module(index),
+                ItemKind::Value(_) => ComponentTypeRef::Value(ComponentValType::Type(index)),
             },
         );
 
